@@ -13,8 +13,10 @@ import (
 	"strings"
 	"time"
 
+	"golang.org/x/tools/go/ssa"
 	"verif/checker/internal/base"
 	"verif/checker/internal/inl"
+
 	"verif/checker/internal/ir"
 	"verif/checker/internal/report"
 	"verif/checker/internal/rules"
@@ -204,6 +206,10 @@ func main() {
 		}
 		if inlineNote != "" {
 			run.Extra["inlining_note"] = inlineNote
+		}
+		if seams := ir.AliasSummary(func(f *ssa.Function) string { return f.String() }); len(seams) > 0 {
+			sort.Strings(seams)
+			run.Extra["function_value_seams_resolved_to_one_function"] = seams
 		}
 		run.Assumptions = rules.Assumptions
 		c := &rules.Ctx{P: p, R: run, Tier: *tier}
